@@ -2729,29 +2729,35 @@ func (m *Machine) Key(st *State) string {
 	}
 	// heap cursors
 	if m.Curs != nil {
+		// a cursor structure is a heap object of its own or a (nested) struct-valued field of one
+		var look func(t types.Type, v Val, depth int)
+		look = func(t types.Type, v Val, depth int) {
+			s, ok := t.Underlying().(*types.Struct)
+			if !ok || depth > 3 {
+				return
+			}
+			sv, ok := v.(*StructV)
+			if !ok || len(sv.F) != s.NumFields() {
+				return
+			}
+			if fc, has := m.Curs.fields[s]; has {
+				if ts, ok := sv.F[fc.Str].(TapeStr); ok {
+					if _, ok := sv.F[fc.Cur].(int64); ok {
+						sv, cur := sv, fc.Cur
+						curs[ts.T] = append(curs[ts.T], curRef{func() int64 { return sv.F[cur].(int64) }, func(x int64) { sv.F[cur] = x }})
+					}
+				}
+				return
+			}
+			for i := 0; i < s.NumFields(); i++ {
+				if _, isStruct := s.Field(i).Type().Underlying().(*types.Struct); isStruct {
+					look(s.Field(i).Type(), sv.F[i], depth+1)
+				}
+			}
+		}
 		for _, id := range order {
 			o := st.Heap[id]
-			s, ok := o.T.Underlying().(*types.Struct)
-			if !ok {
-				continue
-			}
-			fc, has := m.Curs.fields[s]
-			if !has {
-				continue
-			}
-			sv, ok := o.V.(*StructV)
-			if !ok {
-				continue
-			}
-			ts, ok := sv.F[fc.Str].(TapeStr)
-			if !ok {
-				continue
-			}
-			if _, ok := sv.F[fc.Cur].(int64); !ok {
-				continue
-			}
-			sv, cur := sv, fc.Cur
-			curs[ts.T] = append(curs[ts.T], curRef{func() int64 { return sv.F[cur].(int64) }, func(x int64) { sv.F[cur] = x }})
+			look(o.T, o.V, 0)
 		}
 	}
 	// 3. per-tape normalisation
